@@ -115,6 +115,9 @@ def parse_spec(path):
             elif key == '@alias':
                 a, _, b = rest.partition(' = ')
                 cfg.setdefault('aliases', {})[a.strip()] = b.strip()
+            elif key == '@global':
+                a, _, b = rest.partition(' = ')
+                cfg.setdefault('global_values', {})[a.strip()] = b.strip()
             elif key == '@typedef':
                 a, _, b = rest.partition(' = ')
                 cfg['typedefs'][a.strip()] = b.strip()
